@@ -2,6 +2,7 @@
 package main
 
 import (
+	"encoding/json"
 	"flag"
 	"fmt"
 	"os"
@@ -13,6 +14,7 @@ import (
 	"time"
 
 	"hpfscheck/internal/core"
+	"hpfscheck/internal/fold"
 	"hpfscheck/internal/load"
 	"hpfscheck/internal/rules"
 	"hpfscheck/internal/sens"
@@ -27,8 +29,17 @@ func main() {
 	replay := flag.String("replay", "", "replay file written by a previous run")
 	dbg := flag.String("debug-invalid", "", "comma-separated function names")
 	dbgErr := flag.String("debug-errabs", "", "comma-separated function names")
+	writeInv := flag.Bool("write-inventory", false, "write <verif>/reference_funcs.json from the function declarations of -repo (the reference decomposition that new helpers are folded back into) and exit")
 	many := flag.String("properties", "", "development aid: 'all' or a comma-separated list; the quick tier of each is run in this one process (programs loaded once) and a line 'RESULT property=<id> rc=<n>' is printed per property")
 	flag.Parse()
+	load.InventoryFile = *verif + "/reference_funcs.json"
+	if *writeInv {
+		if err := fold.WriteInventory(*repo, load.InventoryFile); err != nil {
+			fmt.Println(err)
+			os.Exit(2)
+		}
+		return
+	}
 	if os.Getenv("GOMAXPROCS") == "" {
 		// many OS threads make the loader spend its time in the kernel on this VM; 4 is the measured optimum
 		runtime.GOMAXPROCS(4)
@@ -112,6 +123,7 @@ func main() {
 	}
 	ctx.Progs = ok
 	ctx.Only = *only
+	foldInfo(ctx, ok)
 	func() {
 		defer func() {
 			if r := recover(); r != nil {
@@ -129,8 +141,18 @@ func main() {
 			ctx.Hard("sensitivity run: %v", err)
 		}
 		killed, missed, skipped := 0, 0, 0
+		silent, falseAlarms := 0, 0
 		for _, r := range res {
 			switch r.Outcome {
+			case "silent":
+				silent++
+			case "false-alarm":
+				falseAlarms++
+				if knownNeutralAlarm(*verif, *prop, r.Name) {
+					fmt.Printf("neutral variant %q is reported (listed in neutral/KNOWN_ALARMS.json as a limit of the per-function rules): %s\n", r.Name, r.Detail)
+				} else {
+					ctx.Hard("false alarm: the behaviour-preserving variant %q is reported — %s", r.Name, r.Detail)
+				}
 			case "killed":
 				killed++
 			case "missed":
@@ -140,11 +162,13 @@ func main() {
 				skipped++
 			}
 		}
+		ctx.Info("neutral_variants_silent", silent)
+		ctx.Info("neutral_variants_reported", falseAlarms)
 		ctx.Info("variants_seeded", len(res))
 		ctx.Info("variants_killed", killed)
 		ctx.Info("variants_skipped", skipped)
 		ctx.Info("variants", res)
-		fmt.Printf("sensitivity: %d variants, %d killed, %d missed, %d skipped\n", len(res), killed, missed, skipped)
+		fmt.Printf("sensitivity: %d variants, %d killed, %d missed, %d skipped; behaviour-preserving variants: %d silent, %d reported\n", len(res)-silent-falseAlarms, killed, missed, skipped, silent, falseAlarms)
 	}
 	os.Exit(ctx.Finish(start))
 }
@@ -178,6 +202,7 @@ func runMany(list, repo, verif string, seed int64) int {
 			}
 		}
 		ctx.Progs = ok
+		foldInfo(ctx, ok)
 		func() {
 			defer func() {
 				if r := recover(); r != nil {
@@ -195,4 +220,58 @@ func runMany(list, repo, verif string, seed int64) int {
 		}
 	}
 	return worst
+}
+
+// foldInfo records in the evidence which new helpers were folded into their callers before the analysis.
+func foldInfo(ctx *core.Ctx, progs []*load.Program) {
+	seen := map[string]bool{}
+	var folded, kept, notes []string
+	for _, p := range progs {
+		for _, f := range p.Folded {
+			if !seen["f"+f] {
+				seen["f"+f] = true
+				folded = append(folded, f)
+			}
+		}
+		for _, f := range p.FoldKept {
+			if !seen["k"+f] {
+				seen["k"+f] = true
+				kept = append(kept, f)
+			}
+		}
+		if p.FoldNote != "" && !seen["n"+p.FoldNote] {
+			seen["n"+p.FoldNote] = true
+			notes = append(notes, p.FoldNote)
+		}
+	}
+	if len(folded)+len(kept)+len(notes) > 0 {
+		ctx.Info("new_helpers_folded_into_callers", folded)
+		ctx.Info("new_helpers_left_alone", kept)
+		ctx.Info("folding_notes", notes)
+		fmt.Printf("normalisation: %d new helper(s) folded into their callers, %d left alone%s\n", len(folded), len(kept), func() string {
+			if len(notes) > 0 {
+				return "; " + strings.Join(notes, "; ")
+			}
+			return ""
+		}())
+	}
+}
+
+// knownNeutralAlarm: neutral/KNOWN_ALARMS.json lists, per behaviour-preserving variant, the properties whose check
+// still reports it (documented limits of per-function rules: DESIGN.md §6.6).
+func knownNeutralAlarm(verif, prop, name string) bool {
+	b, err := os.ReadFile(verif + "/neutral/KNOWN_ALARMS.json")
+	if err != nil {
+		return false
+	}
+	var m map[string][]string
+	if json.Unmarshal(b, &m) != nil {
+		return false
+	}
+	for _, p := range m[strings.TrimPrefix(name, "neutral ")] {
+		if p == prop {
+			return true
+		}
+	}
+	return false
 }
